@@ -428,16 +428,23 @@ Qed.
 
 Section Exec.
 Variable F : facts.
+Hypothesis HI : io_ok F = true.
+
+Lemma no_wait_delay : wait_delay_set F = false.
+Proof. pose proof HI as H. unfold io_ok in H. now destruct (wait_delay_set F). Qed.
+
+Lemma delivered_eq : forall o evs, delivered F o evs = if ran o then evs else [].
+Proof. intros. unfold delivered. rewrite no_wait_delay. now destruct (ran o). Qed.
 
 (* ---------- exit status: ConvertProcessError ---------- *)
 
 Lemma base_kind_nil_iff : forall o, base_kind F o = ENil <-> o = Exited 0.
 Proof.
   intros o; split.
-  - destruct o as [c|s|k| |]; simpl; try discriminate.
+  - destruct o as [c|s|k| |]; simpl; rewrite ?no_wait_delay; try discriminate.
     + destruct (c =? 0) eqn:E; [apply Z.eqb_eq in E; now subst|discriminate].
     + destruct (conv_ctx_first F); [destruct k|]; discriminate.
-  - intros ->. reflexivity.
+  - intros ->. simpl. now rewrite no_wait_delay.
 Qed.
 
 Lemma apply_rules_nil_iff : forall rs o, forallb rule_ok rs = true ->
@@ -445,11 +452,11 @@ Lemma apply_rules_nil_iff : forall rs o, forallb rule_ok rs = true ->
 Proof.
   induction rs as [|[c a] r IH]; intros o H; [apply base_kind_nil_iff|].
   simpl in H. apply andb_prop in H. destruct H as [Hr H]. simpl.
-  destruct (cond_holds c o) eqn:C; [|now apply IH].
-  destruct c, o; simpl in C; try discriminate.
+  destruct (cond_holds F c o) eqn:C; [|now apply IH].
+  destruct c, o; simpl in C; rewrite ?no_wait_delay, ?andb_false_r, ?andb_true_r in C; try discriminate.
   - (* err == nil, Exited with status 0 *)
     apply Z.eqb_eq in C. subst code.
-    destruct a; simpl in Hr; try discriminate; simpl; split; auto.
+    destruct a; simpl in Hr; try discriminate; simpl; rewrite ?no_wait_delay; split; auto.
   - (* signal text *)
     destruct a; simpl in Hr; try discriminate; simpl; split; intros X; discriminate.
   - (* exec.ErrNotFound *)
@@ -487,7 +494,7 @@ Lemma execute_shape : forall wm ctx pctx o evs,
    (if wm then [end_entry F (exec_err ctx o)] else []), exec_err ctx o).
 Proof.
   intros. destruct exec_fields as [S _]. unfold execute. rewrite S. simpl. unfold exec_err.
-  now rewrite <- app_assoc.
+  now rewrite delivered_eq, <- app_assoc.
 Qed.
 
 Lemma execute_error_eq : forall ctx pctx o, execute_error F ctx pctx o = exec_err ctx o.
